@@ -265,6 +265,9 @@ func (t *c17Target) Initialized(context.Context, *lsp.InitializedParams) error  
 func (t *c17Target) DidOpen(context.Context, *lsp.DidOpenTextDocumentParams) error     { return nil }
 func (t *c17Target) DidChange(context.Context, *lsp.DidChangeTextDocumentParams) error { return nil }
 func (t *c17Target) DidClose(context.Context, *lsp.DidCloseTextDocumentParams) error   { return nil }
+func (t *c17Target) DidChangeWatchedFiles(context.Context, *lsp.DidChangeWatchedFilesParams) error {
+	return nil
+}
 
 type c17Client struct{ lsp.Client }
 
@@ -370,6 +373,16 @@ func c17Sessions(e *emitter, seed uint64) {
 					}
 				}); p {
 					failed = fmt.Sprint("DidChange panicked: ", msg)
+				}
+				// the file watcher reports that the file (which holds something else than the unsaved buffer) was touched by
+				// another program: the editor's buffer stays the truth
+				if r.chance(1, 3) {
+					kind := []lsp.FileChangeType{lsp.FileChangeTypeChanged, lsp.FileChangeTypeChanged, lsp.FileChangeTypeCreated}[r.intn(3)]
+					if p, msg := safely(func() {
+						_ = srv.DidChangeWatchedFiles(ctx, &lsp.DidChangeWatchedFilesParams{Changes: []*lsp.FileEvent{{Type: kind, URI: d.uri}}})
+					}); p {
+						failed = fmt.Sprint("DidChangeWatchedFiles panicked: ", msg)
+					}
 				}
 				// closing one document leaves the others as they are
 				if len(docs) > 1 && r.chance(1, 8) {
